@@ -2,11 +2,12 @@
 (***************************************************************************)
 (* Case generation for C09: a program builder.  A behaviour picks a         *)
 (* skeleton (shape of the function body: straight line, if / if-else, early  *)
-(* return, for loop, nesting of depth 2) and inputs, then fills the slots of *)
-(* the skeleton from left to right with statements of the alphabet whose     *)
-(* reads are definitely defined at that point (so the program does not raise *)
-(* NameError / AttributeError / KeyError), prepends the creation statements  *)
-(* of the containers the body mentions and appends `return x|y`.  The last   *)
+(* return, for / while loop, nesting of depth 2) and inputs, then fills the   *)
+(* slots of the skeleton from left to right with statements of the alphabet   *)
+(* whose reads are definitely defined at that point (so the program does not *)
+(* raise NameError / AttributeError / KeyError), prepends the creation       *)
+(* statements of the containers the body mentions (p is an alias of o or a   *)
+(* second Box) and appends `return x|y`.  The last                            *)
 (* step evaluates the PyMiniData semantics on the program (executed lines,   *)
 (* dynamic slice of the returned value, return value).                       *)
 (*  - exhaustive (cfg with INVARIANT Emit): every program of the chosen      *)
@@ -18,7 +19,9 @@ EXTENDS PyMiniData, Json
 
 CONSTANTS SkSet,      \* skeleton ids to use
           Alpha,      \* "core" | "full"
-          InputSet    \* set of <<a, b>>
+          InputSet,   \* set of <<a, b>>
+          Chain       \* TRUE: every top-level statement after the first reads something an earlier statement of
+                      \* the body wrote, and the returned variable was written by the last statement / the body
 
 (* ---- alphabet of simple statements ---- *)
 Plain == {Const("x", 0), Const("x", 1), Const("y", 1),
@@ -40,11 +43,13 @@ CoreAlpha == {Const("x", 1), Copy("y", "x"), Bin("x", "x", "y", "add"), Bin("x",
 Alphabet == IF Alpha = "core" THEN CoreAlpha ELSE FullAlpha
 
 (* ---- what a statement needs / provides (names and cells of the must-defined analysis) ---- *)
-Cell(o, f) == IF o \in {"o", "p"} THEN (IF f = 0 THEN "o0" ELSE "o1")
-              ELSE IF o = "l" THEN (IF f = 0 THEN "l0" ELSE "l1") ELSE (IF f = 0 THEN "d0" ELSE "d1")
-Reads(s) == CASE s.t = "bin" -> {s.y, s.z} [] s.t \in {"copy", "call"} -> {s.y}
-              [] s.t = "store" -> {s.y} [] s.t = "load" -> {Cell(s.o, s.f)} [] OTHER -> {}
-Writes(s) == CASE s.t = "store" -> {Cell(s.o, s.f)} [] OTHER -> {s.x}
+(* al = TRUE: p is an alias of o (p = o); FALSE: p is a second object (p = Box()) *)
+Cell(o, f, al) == IF o = "o" \/ (o = "p" /\ al) THEN (IF f = 0 THEN "o0" ELSE "o1")
+                  ELSE IF o = "p" THEN (IF f = 0 THEN "p0" ELSE "p1")
+                  ELSE IF o = "l" THEN (IF f = 0 THEN "l0" ELSE "l1") ELSE (IF f = 0 THEN "d0" ELSE "d1")
+Reads(s, al) == CASE s.t = "bin" -> {s.y, s.z} [] s.t \in {"copy", "call"} -> {s.y}
+                  [] s.t = "store" -> {s.y} [] s.t = "load" -> {Cell(s.o, s.f, al)} [] OTHER -> {}
+Writes(s, al) == CASE s.t = "store" -> {Cell(s.o, s.f, al)} [] OTHER -> {s.x}
 Mentions(s) == CASE s.t \in {"store", "load"} -> {s.o} [] OTHER -> {}
 Defd0 == {"a", "b", "G", "l0", "l1", "d0"}
 
@@ -69,7 +74,11 @@ Slots(sk) ==
     [] sk = 16 -> <<"H", "C", "C", "R", "h", "H">>
     [] sk = 17 -> <<"H", "H", "C", "h", "H", "H">>
     [] sk = 18 -> <<"H", "H", "K", "h", "h", "H">>
-AllSkeletons == 1..18
+    [] sk = 19 -> <<"H", "C", "h", "H">>
+    [] sk = 20 -> <<"H", "H", "C", "h", "h", "H">>
+    [] sk = 21 -> <<"H", "C", "C", "h", "H">>
+    [] sk = 22 -> <<"H", "C", "C", "R", "h", "H">>
+AllSkeletons == 1..22
 
 Body(sk, h) ==
   CASE sk = 1 -> <<h[1], h[2]>>
@@ -90,25 +99,30 @@ Body(sk, h) ==
     [] sk = 16 -> <<h[1], If(h[2].v, <<If(h[3].v, <<Ret(h[4].v)>>, <<>>), h[5]>>, <<>>), h[6]>>
     [] sk = 17 -> <<h[1], h[2], If(h[3].v, <<h[4]>>, <<>>), h[5], h[6]>>
     [] sk = 18 -> <<h[1], h[2], For(h[3].n, <<h[4], h[5]>>), h[6]>>
+    \* while loops: the body ends with the decrement of the condition variable
+    [] sk = 19 -> <<h[1], While(h[2].v, <<h[3], Dec(h[2].v)>>), h[4]>>
+    [] sk = 20 -> <<h[1], h[2], While(h[3].v, <<h[4], h[5], Dec(h[3].v)>>), h[6]>>
+    [] sk = 21 -> <<h[1], While(h[2].v, <<If(h[3].v, <<h[4]>>, <<>>), Dec(h[2].v)>>), h[5]>>
+    [] sk = 22 -> <<h[1], While(h[2].v, <<If(h[3].v, <<Ret(h[4].v)>>, <<>>), h[5], Dec(h[2].v)>>), h[6]>>
 
 VarSlot(v) == [t |-> "var", v |-> v]
 CountSlot(n) == [t |-> "cnt", n |-> n]
 IsStmt(e) == e.t \notin {"var", "cnt"}
 
 (* the creation statements the body needs *)
-Prologue(h) ==
+Prologue(h, al) ==
   LET m == UNION {Mentions(h[i]) : i \in {j \in DOMAIN h : IsStmt(h[j])}}
-  IN (IF m \cap {"o", "p"} # {} THEN <<New("o")>> ELSE <<>>)
-     \o (IF "p" \in m THEN <<Copy("p", "o")>> ELSE <<>>)
+  IN (IF "o" \in m \/ ("p" \in m /\ al) THEN <<New("o")>> ELSE <<>>)
+     \o (IF "p" \in m THEN (IF al THEN <<Copy("p", "o")>> ELSE <<New("p")>>) ELSE <<>>)
      \o (IF "l" \in m THEN <<Mk("l", "list", "a")>> ELSE <<>>)
      \o (IF "d" \in m THEN <<Mk("d", "dict", "b")>> ELSE <<>>)
 
-VARIABLES sk, h, defd, inp, done, prog, out
-vars == <<sk, h, defd, inp, done, prog, out>>
+VARIABLES sk, alias, h, defd, fresh, inp, done, prog, out, js
+vars == <<sk, alias, h, defd, fresh, inp, done, prog, out, js>>
 
 NoOut == [flow |-> "-"]
-Init == /\ sk \in SkSet /\ inp \in InputSet
-        /\ h = <<>> /\ defd = Defd0 /\ done = FALSE /\ prog = <<>> /\ out = NoOut
+Init == /\ sk \in SkSet /\ inp \in InputSet /\ alias \in BOOLEAN
+        /\ h = <<>> /\ defd = Defd0 /\ fresh = {} /\ done = FALSE /\ prog = <<>> /\ out = NoOut /\ js = ""
 
 IntVars == {"a", "b", "x", "y"}
 Fill ==
@@ -116,32 +130,46 @@ Fill ==
   /\ LET kind == Slots(sk)[Len(h) + 1] IN
      CASE kind \in {"H", "h"} ->
             \E s \in Alphabet :
-              /\ Reads(s) \subseteq defd
+              /\ Reads(s, alias) \subseteq defd
+              /\ (Chain /\ kind = "H" /\ fresh # {}) => Reads(s, alias) \cap fresh # {}
               /\ h' = Append(h, s)
-              /\ defd' = IF kind = "H" THEN defd \cup Writes(s) ELSE defd
+              /\ defd' = IF kind = "H" THEN defd \cup Writes(s, alias) ELSE defd
+              /\ fresh' = fresh \cup Writes(s, alias)
        [] kind \in {"C", "R"} ->
-            \E v \in IntVars \cap defd : h' = Append(h, VarSlot(v)) /\ UNCHANGED defd
+            \E v \in IntVars \cap defd : h' = Append(h, VarSlot(v)) /\ UNCHANGED <<defd, fresh>>
        [] kind = "K" ->
-            \E n \in 0..2 : h' = Append(h, CountSlot(n)) /\ UNCHANGED defd
-  /\ UNCHANGED <<sk, inp, done, prog, out>>
+            \E n \in 0..2 : h' = Append(h, CountSlot(n)) /\ UNCHANGED <<defd, fresh>>
+  /\ UNCHANGED <<sk, alias, inp, done, prog, out, js>>
 
+(* the returned variable: in Chain mode one the last top-level statement wrote, else one the body wrote *)
+LastTop == LET S == {i \in DOMAIN h : Slots(sk)[i] = "H"} IN IF S = {} THEN {} ELSE Writes(h[CHOOSE i \in S : \A j \in S : j <= i], alias)
+RetVars == LET all == {"x", "y"} \cap defd
+           IN IF ~Chain THEN all
+              ELSE IF all \cap LastTop # {} /\ Slots(sk)[Len(Slots(sk))] = "H" THEN all \cap LastTop
+              ELSE all \cap fresh
 Finish ==
   /\ ~done /\ Len(h) = Len(Slots(sk))
-  /\ \E r \in {"x", "y"} \cap defd :
-       LET pr == Prologue(h) \o Body(sk, h) \o <<Ret(r)>>
+  /\ alias \/ \E i \in DOMAIN h : IsStmt(h[i]) /\ "p" \in Mentions(h[i])    \* a second object only if p is used
+  /\ \E r \in RetVars :
+       LET pr == Prologue(h, alias) \o Body(sk, h) \o <<Ret(r)>>
            res == Run(pr, inp[1], inp[2])
+           o == [flow |-> res.flow, retv |-> res.retv, lines |-> res.lines, slice |-> res.slice,
+                 strict |-> res.strict, retp |-> res.retp, ninst |-> res.ninst]
        IN /\ prog' = pr
-          /\ out' = [flow |-> res.flow, retv |-> res.retv, lines |-> res.lines, slice |-> res.slice,
-                     strict |-> res.strict, retp |-> res.retp, ninst |-> res.ninst]
+          /\ out' = o
+          /\ js' = ToJson([prog |-> pr, inp |-> inp, sk |-> sk,
+                           exp |-> [flow |-> res.flow, retv |-> res.retv, lines |-> res.lines,
+                                    slice |-> res.slice, strict |-> res.strict, retp |-> res.retp,
+                                    edges |-> res.edges]])
   /\ done' = TRUE
-  /\ UNCHANGED <<sk, h, defd, inp>>
+  /\ UNCHANGED <<sk, alias, h, defd, fresh, inp>>
 
 Next == Fill \/ Finish
 Spec == Init /\ [][Next]_vars
 
 (* ---- sanity of the semantics itself on every generated case (design check) ---- *)
 WellFormed == done => ValidProg(prog)
-NoRuntimeError == done => out.flow = "r"                    \* the must-defined analysis is right
+NoRuntimeError == done => out.flow \in {"r", "t"}           \* the must-defined analysis is right ("t": loop bound)
 SpecSliceExecuted == done => (out.slice \subseteq out.lines /\ out.strict \subseteq out.lines)
 SpecSliceHasCriterion == done => (out.flow = "r" => out.retp \in out.slice)
 StrictContainsSlice == done => out.slice \subseteq out.strict
@@ -149,9 +177,10 @@ DefLineInSlice == done => (out.flow = "r" => ModLine(5) \in out.slice)
 
 QuickSkeletons == {1}
 QuickInputs == {<<1, 0>>}
-ThoroughSkeletons == {1, 2, 4, 7, 9}
+ThoroughSkeletons == {1, 2}
+ThoroughInputs == {<<1, 0>>, <<0, 1>>}
 SimSkeletons == AllSkeletons
-AllInputs == {<<0, 0>>, <<0, 1>>, <<1, 0>>, <<1, 1>>}
+AllInputs == (0..2) \X (0..2)
 
-Emit == done => PrintT(<<"HIST", ToJson([prog |-> prog, inp |-> inp, sk |-> sk, exp |-> out])>>)
+Emit == done => PrintT(<<"HIST", js>>)
 =============================================================================
